@@ -74,6 +74,7 @@ fn cmd_ext(mut c: Command, items: &[Sx]) -> Command {
             "x-hide-pv" => c.hide_possible_values(true),
             "x-sub-heading" => c.subcommand_help_heading(l[0].string()),
             "x-sub-valname" => c.subcommand_value_name(l[0].string()),
+            "x-template" => c.help_template(l[0].string()),
             _ => c,
         };
     }
